@@ -58,7 +58,9 @@ def roots(tier, seed):
                             opts["maxfev"] = 16 * n + 8
                         else:
                             opts["maxfev"] = 60 * n
-                        case = alpha.base_case(n, pats, "in", obj, cons, options=opts)
+                        cbk = {"sig": "ir" if scale else "xk", "behav": "passive"} if cons in ("none", "ball_le", "lin+nl") \
+                            else None
+                        case = alpha.base_case(n, pats, "in", obj, cons, options=opts, callback=cbk)
                         case["explore"] = 1
                         if tier == "thorough" and n == 1 and cons in ("none", "ball_le") and not scale:
                             case["explore"] = 2
@@ -83,6 +85,16 @@ def roots(tier, seed):
                             c2["cons"][0]["funs"][0]["nan"] = alpha.nan_region(nan, n)
                             c2["explore"] = 0
                             out.append(c2)
+                # complementary regions: every evaluation has a NaN in the objective or in the constraint
+                if cons.startswith("ball"):
+                    for t in (0.375, 0.875, -0.125):
+                        for cbk in (None, {"sig": "xk", "behav": "passive"}):
+                            c3 = alpha.base_case(n, pats, "in", "quad", cons, callback=cbk)
+                            c3["obj"]["nan"] = {"type": "halfspace", "i": 0, "t": t, "side": 1}
+                            c3["cons"][0]["funs"][0]["nan"] = {"type": "halfspace", "i": 0, "t": t + 2.0 ** -30, "side": -1}
+                            c3["explore"] = 0
+                            c3["tag"]["special"] = "complementary-nan"
+                            out.append(c3)
                 for obj in ["zero", "const", "lin", "cubic"]:
                     for npt in sorted({n + 1, 2 * n + 1, (n + 1) * (n + 2) // 2}):
                         case = alpha.base_case(n, pats, "in", obj, cons, options={"nb_points": npt})
